@@ -42,7 +42,7 @@ var fmtTrouble = []string{
 type fmtVariant struct {
 	CRLF    bool
 	FinalNL bool
-	Header  int // 0 absent, 1 present (with blank line), 2 present without the blank line
+	Header  int // 0 absent, 1 present (with blank line), 2 present without the blank line, 3 complete below an empty line, 4 complete below a line of blanks
 }
 
 func fmtFile(lines []string, v fmtVariant) string {
@@ -52,6 +52,10 @@ func fmtFile(lines []string, v fmtVariant) string {
 		ls = append(ls, raHeader1, raHeader2, "")
 	case 2:
 		ls = append(ls, raHeader1, raHeader2)
+	case 3:
+		ls = append(ls, "", raHeader1, raHeader2, "")
+	case 4:
+		ls = append(ls, "  ", raHeader1, raHeader2, "")
 	}
 	ls = append(ls, lines...)
 	nl := "\n"
@@ -72,7 +76,7 @@ func fmtVariants(full bool) []fmtVariant {
 	var out []fmtVariant
 	for _, crlf := range []bool{false, true} {
 		for _, nl := range []bool{true, false} {
-			for h := 0; h < 3; h++ {
+			for h := 0; h < 5; h++ {
 				out = append(out, fmtVariant{crlf, nl, h})
 			}
 		}
